@@ -620,3 +620,80 @@ func checkRestartProtocol(c *core.Ctx) {
 		})
 	}
 }
+
+// C20.R15 — in-place transposition. Tip() follows the cycles of k -> rows*k mod (mn-1) over the raw storage; the walk
+// returns to its start only if that map is a bijection, i.e. if the receiver owns its whole storage (mn = rows*cols)
+// in untransposed row-major order. On a sub-matrix view the walk can fall into the fixed point 0 and never return
+// (3x3 storage, 2x3 view: 1 -> 2 -> 4 -> 0 -> 0 ...). Every Tip() therefore rejects views before the walk (a panic
+// guard that reads both offsets and both storage extents), and the dense ones, which carry a transposed flag, handle
+// that flag before the walk as well.
+func checkTipGuard(c *core.Ctx) {
+	c.Rule("C20.R15", "Tip(): the cycle walk over the raw storage is preceded by a guard that panics for sub-matrix views (offsets and storage extents) and, for dense matrices, by the handling of the transposed flag", 18)
+	pkg := c.Root
+	info := pkg.TypesInfo
+	core.EachFunc(pkg, func(_ *ast.File, fd *ast.FuncDecl) {
+		if fd.Name.Name != "Tip" || fd.Recv == nil || fd.Body == nil {
+			return
+		}
+		cons := c.FuncName(pkg, fd)
+		// the walk: a for statement without condition inside a counted loop
+		var walk *ast.ForStmt
+		ast.Inspect(fd.Body, func(n ast.Node) bool {
+			if fs, ok := n.(*ast.ForStmt); ok && fs.Cond == nil && fs.Init == nil && walk == nil {
+				walk = fs
+			}
+			return true
+		})
+		if walk == nil {
+			c.OK("C20.R15", cons, "no cycle walk", fd.Pos(), "")
+			return
+		}
+		fieldsRead := func(e ast.Node) map[string]bool {
+			r := map[string]bool{}
+			ast.Inspect(e, func(n ast.Node) bool {
+				if sel, ok := n.(*ast.SelectorExpr); ok {
+					if fv, ok := info.Uses[sel.Sel].(*types.Var); ok && fv.IsField() {
+						r[fv.Name()] = true
+					}
+				}
+				return true
+			})
+			return r
+		}
+		guard, flag := false, false
+		hasFlag := false
+		if st, ok := info.TypeOf(fd.Recv.List[0].Type).(*types.Pointer); ok {
+			if s, ok := st.Elem().Underlying().(*types.Struct); ok {
+				for i := 0; i < s.NumFields(); i++ {
+					if s.Field(i).Name() == "transposed" {
+						hasFlag = true
+					}
+				}
+			}
+		}
+		for _, st := range fd.Body.List {
+			if st.Pos() >= walk.Pos() {
+				break
+			}
+			is, ok := st.(*ast.IfStmt)
+			if !ok {
+				continue
+			}
+			fr := fieldsRead(is.Cond)
+			if blockPanics(info, is.Body) && fr["rowOffset"] && fr["colOffset"] && fr["rowMax"] && fr["colMax"] {
+				guard = true
+			}
+			if fr["transposed"] && len(is.Body.List) > 0 {
+				if _, isRet := is.Body.List[len(is.Body.List)-1].(*ast.ReturnStmt); isRet || blockPanics(info, is.Body) {
+					flag = true
+				}
+			}
+		}
+		c.Check(guard, "C20.R15", cons, "views rejected before the cycle walk", fd.Pos(),
+			"Tip() walks the cycles of the raw storage without first rejecting sub-matrix views: on a view the walk need not return to its start (3x3 storage, 2x3 view: does not terminate)")
+		if hasFlag {
+			c.Check(flag, "C20.R15", cons, "transposed flag handled before the cycle walk", fd.Pos(),
+				"Tip() permutes the raw storage as if it were untransposed: on m.T() the elements end up in the wrong places")
+		}
+	})
+}
